@@ -351,6 +351,9 @@ Definition owned (c : nat * nat * nat) : list (list (nat * nat)) :=
     # 4. oracle on real bases: threaded == serial bit for bit, all k
     _oracle_real(ctx)
 
+    # 5. every public call form that forwards to the threaded branch
+    _call_forms(ctx)
+
 
 SORT_DEFS = '''
 (* canonical order used by the harness: chunk lists sorted as Python tuples (i, j) lists *)
@@ -615,6 +618,149 @@ def _run_turnstile(u, v, Nu, Nv, k, order):
     if state['dead']:
         return None, trace
     return res, trace
+
+
+def _call_forms(ctx):
+    """coverage of the PUBLIC call forms that forward to BilinearForm._assemble: every one of them, built with
+    nthreads=k, must give exactly the serial result, leave its inputs (w arrays, basis arrays) untouched, and keep
+    nthreads across the wrappers that copy the form (decorator, partial, block, Form(form))."""
+    import skfem
+    from skfem.assembly import BilinearForm, Basis, FacetBasis, asm
+    from skfem.helpers import dot, grad
+    rng = ctx.rng
+    m = skfem.MeshTri().refined(1)
+    e1, e2 = skfem.ElementTriP1(), skfem.ElementTriP2()
+    ub, vb = Basis(m, e2, intorder=4), Basis(m, e1, intorder=4)
+    fb = FacetBasis(m, e2, intorder=3)
+    cb = Basis(m, skfem.ElementVector(e2) * e1, intorder=4)
+    wvec = np.linspace(0.5, 1.5, ub.N)
+    wfield = ub.interpolate(wvec)
+    table = []
+
+    def mass(u, v, w):
+        return u * v
+
+    def coef(u, v, w):
+        return w.c * w['a'] * u * v + w.s * dot(grad(u), grad(v))
+
+    def stokes(u, p, v, q, w):
+        return dot(u, v) + p * q + u[0] * q
+
+    def two(a, u, v, w):
+        return a * u * v
+
+    def pair(u1, u2, v1, v2, w):
+        return u1 * v1 + 2.0 * u2 * v2 + 3.0 * u1 * v2 + 5.0 * u2 * v1
+
+    def cplx(u, v, w):
+        return (1.0 + 2.0j) * u * v
+
+    def dense(x):
+        return x.toarray() if hasattr(x, 'toarray') else np.asarray(x)
+
+    ks = [1, 2, 3, 7] if ctx.quick() else [1, 2, 3, 4, 5, 7, 11, 20]
+    forms = {
+        'BilinearForm(f, nthreads=k).assemble(u, v)': lambda k, F: F(mass, nthreads=k).assemble(ub, vb),
+        '@BilinearForm(nthreads=k) decorator': lambda k, F: F(nthreads=k)(mass).assemble(ub, vb),
+        'BilinearForm(BilinearForm(f), nthreads=k)': lambda k, F: F(F(mass), nthreads=k).assemble(ub, vb),
+        'form(u, v) [__call__]': lambda k, F: F(mass, nthreads=k).assemble(ub),
+        'assemble(u) [vbasis=None]': lambda k, F: F(mass, nthreads=k).assemble(ub),
+        'elemental().todefault()': lambda k, F: F(mass, nthreads=k).elemental(ub, vb).todefault(),
+        'elemental().toarray()': lambda k, F: F(mass, nthreads=k).elemental(ub, vb).toarray(),
+        'coo_data().tocsr()': lambda k, F: F(mass, nthreads=k).coo_data(ub, vb).tocsr(),
+        'asm(form, u, v)': lambda k, F: asm(F(mass, nthreads=k), ub, vb),
+        'asm(form, [u, u], [v, v])': lambda k, F: asm(F(mass, nthreads=k), [ub, ub], [vb, vb]),
+        'kwargs: DOF vector, scalar, DiscreteField': lambda k, F: F(coef, nthreads=k).assemble(ub, ub, c=wvec, s=2.5, a=wfield),
+        'partial(a)': lambda k, F: F(two, nthreads=k).partial(3.0).assemble(ub, vb),
+        'dtype=complex': lambda k, F: F(cplx, nthreads=k, dtype=np.complex128).assemble(ub, vb),
+        'FacetBasis': lambda k, F: F(mass, nthreads=k).assemble(fb),
+        'CompositeBasis (vector x scalar)': lambda k, F: F(stokes, nthreads=k).assemble(cb),
+        'block(0, 0) of a two-field form': lambda k, F: F(pair, nthreads=k).block(0, 0).assemble(ub, vb),
+        'block(1, 0) of a two-field form': lambda k, F: F(pair, nthreads=k).block(1, 0).assemble(ub, vb),
+        'block(0, 1) of a two-field form': lambda k, F: F(pair, nthreads=k).block(0, 1).assemble(ub, vb),
+        'params of the constructor kept (**params)': lambda k, F: F(mass, nthreads=k, hint=1).assemble(ub, vb),
+    }
+    for name, call in forms.items():
+        try:
+            ref = dense(call(0, BilinearForm))
+        except Exception as e:      # a call form that does not work serially either is outside this property
+            table.append({'callable': name, 'covered_before': False, 'covered_now': False,
+                          'note': f'serial call raises {type(e).__name__}; not a C16 matter'})
+            continue
+        ok = True
+        for k in ks:
+            sums = (float(wvec.sum()), float(wfield.value.sum()), checksum_real(ub), checksum_real(vb))
+            ctx.count(('call-form', name, k), nontrivial=k >= 2)
+            try:
+                got = dense(call(k, BilinearForm))
+            except Exception as e:
+                ok = False
+                ctx.fail(f'call-form-raises:{name}', f'{name} with nthreads={k} raises {type(e).__name__}: {e} (serial works)',
+                         {'call_form': name, 'k': k})
+                break
+            if got.shape != ref.shape or not np.array_equal(got, ref):
+                ok = False
+                ctx.fail(f'call-form!=serial:{name}', f'{name} with nthreads={k} differs from the serial result',
+                         {'call_form': name, 'k': k,
+                          'max_abs_diff': float(abs(got - ref).max()) if got.shape == ref.shape else None})
+                break
+            if sums != (float(wvec.sum()), float(wfield.value.sum()), checksum_real(ub), checksum_real(vb)):
+                ok = False
+                ctx.fail(f'call-form-modifies-inputs:{name}', f'{name} with nthreads={k} modifies a shared input',
+                         {'call_form': name, 'k': k})
+                break
+        table.append({'callable': name, 'covered_before': name.startswith('BilinearForm(f, nthreads=k)'),
+                      'covered_now': True, 'agrees_with_serial': ok})
+    # the wrappers that copy a form must keep the thread count (else a "threaded" form silently runs serially: not a
+    # violation of equality, recorded only)
+    kept = {}
+    F = BilinearForm
+    kept['decorator'] = F(nthreads=3)(mass).nthreads
+    kept['partial'] = F(two, nthreads=3).partial(1.0).nthreads
+    kept['block'] = F(pair, nthreads=3).block(0, 0).nthreads
+    ctx.extra['nthreads_kept_by_wrappers'] = kept
+    # workers really run in the wrappers: count distinct worker thread names seen by the integrand
+    import threading
+    for name, mk in (('decorator', lambda: F(nthreads=3)), ('partial', None), ('block', None)):
+        seen = set()
+
+        def spy(u, v, w):
+            seen.add(threading.current_thread().name)
+            return u * v
+
+        def spy2(a, u, v, w):
+            seen.add(threading.current_thread().name)
+            return a * u * v
+
+        def spy4(u1, u2, v1, v2, w):
+            seen.add(threading.current_thread().name)
+            return u1 * v1 + u2 * v2
+        if name == 'decorator':
+            F(nthreads=3)(spy).assemble(ub, vb)
+        elif name == 'partial':
+            F(spy2, nthreads=3).partial(1.0).assemble(ub, vb)
+        else:
+            F(spy4, nthreads=3).block(0, 0).assemble(ub, vb)
+        table.append({'callable': f'{name}: worker threads used', 'covered_before': False, 'covered_now': True,
+                      'distinct_threads': len(seen)})
+    table += [
+        {'callable': 'LinearForm / Functional / TrilinearForm(nthreads=k)', 'covered_before': False, 'covered_now': False,
+         'note': 'nthreads is accepted and ignored there (no threaded branch in their _assemble); out of scope of C16, '
+                 'which is about bilinear forms'},
+        {'callable': 'Form._normalize_asm_kwargs list-of-DiscreteField (deprecated)', 'covered_before': False,
+         'covered_now': False, 'note': 'runs before the threaded branch, identically for serial; not schedule-dependent'},
+    ]
+    ctx.extra['api_coverage'] = table
+
+
+def checksum_real(basis):
+    tot = 0.0
+    for b in basis.basis:
+        for f in (b if isinstance(b, tuple) else (b,)):
+            for a in f:
+                if a is not None and hasattr(a, 'sum'):
+                    tot += float(np.asarray(a).sum())
+    return tot
 
 
 def _oracle_real(ctx):
